@@ -226,4 +226,49 @@ func discharge(results []*FuncResult, timeoutS int, thorough bool, workers int) 
 	}
 	close(ch)
 	wg.Wait()
+	// second chance: an obligation that no configuration DECIDED (timeout / unknown - never a
+	// `sat` answer) in the first pass, where up to `workers` portfolios compete for the cores, is
+	// tried again with four times the time and only two portfolios at once. A slow proof on a busy
+	// machine is not a violation; functions with many undecided obligations (a real change that
+	// havocs everything) are not retried.
+	perFn := map[string]int{}
+	var retry []job
+	for _, j := range jobs {
+		if j.o.ExpectSat || j.o.Soft || j.o.Kind == "cover" {
+			continue
+		}
+		if j.o.Result == "timeout" || j.o.Result == "unknown" {
+			perFn[j.o.Fn]++
+			retry = append(retry, j)
+		}
+	}
+	rch := make(chan job)
+	var rwg sync.WaitGroup
+	for w := 0; w < 2; w++ {
+		rwg.Add(1)
+		go func() {
+			defer rwg.Done()
+			for j := range rch {
+				to := timeoutS * 4
+				if to > 90 {
+					to = 90
+				}
+				out, _ := solveOne(j.o.Script, to, thorough)
+				if out.result == "unsat" {
+					j.o.Result = out.result
+					j.o.Solver = out.solver + " (second pass)"
+					j.o.Ms = out.ms
+					j.o.Model = ""
+				}
+			}
+		}()
+	}
+	for _, j := range retry {
+		if perFn[j.o.Fn] > 3 || j.o.Script == "" {
+			continue
+		}
+		rch <- j
+	}
+	close(rch)
+	rwg.Wait()
 }
